@@ -111,6 +111,7 @@ type e2eSkip struct{ why string }
 func (e e2eSkip) Error() string { return "inconclusive: " + e.why }
 
 const e2eBudget = 30 * time.Second
+const e2eSentinel = "VERIF-END-OF-NOTIFICATIONS"
 
 func e2eName(ri rIface) string { return ri.Name }
 
@@ -185,7 +186,7 @@ func e2eExecute(c e2eCase, cfg rConfig) (*e2eRun, error) {
 		buf := make([]byte, 8192)
 		for {
 			n, _, err := pc.ReadFrom(buf)
-			if err != nil {
+			if err != nil || string(buf[:n]) == e2eSentinel {
 				return
 			}
 			nmu.Lock()
@@ -241,7 +242,14 @@ func e2eExecute(c e2eCase, cfg rConfig) (*e2eRun, error) {
 				run.ExitSignal = ws.Signal().String()
 			}
 		}
-		_ = pc.SetReadDeadline(time.Now().Add(50 * time.Millisecond))
+		// the child has exited: everything it sent is queued, in order; a sentinel ends the reader
+		// (an expired read deadline would fail reads even with data queued)
+		if sc, err := net.Dial("unixgram", npath); err == nil {
+			_, _ = sc.Write([]byte(e2eSentinel))
+			sc.Close()
+		} else {
+			pc.Close()
+		}
 		<-nDone
 		nmu.Lock()
 		run.Notes = append([]string(nil), notes...)
